@@ -77,7 +77,9 @@ func toHelper[T any](name string, f func(ap.Item) (*T, error)) {
 func init() {
 	topHelpers["IsNil"] = func(it ap.Item) (string, string) { return boolClass(ap.IsNil(it)), "none" }
 	topHelpers["NotEmpty"] = func(it ap.Item) (string, string) { return boolClass(ap.NotEmpty(it)), "none" }
-	topHelpers["ItemsEqual-nil"] = func(it ap.Item) (string, string) { return boolClass(ap.ItemsEqual(it, nil) && ap.ItemsEqual(nil, it)), "none" }
+	topHelpers["ItemsEqual-nil"] = func(it ap.Item) (string, string) {
+		return boolClass(ap.ItemsEqual(it, nil) && ap.ItemsEqual(nil, it)), "none"
+	}
 	topHelpers["ItemsEqual-self"] = func(it ap.Item) (string, string) { return boolClass(ap.ItemsEqual(it, it)), "none" }
 	topHelpers["ItemsEqual-value"] = func(it ap.Item) (string, string) { return boolClass(ap.ItemsEqual(it, validNote())), "none" }
 	topHelpers["ItemsEqual-value-rev"] = func(it ap.Item) (string, string) { return boolClass(ap.ItemsEqual(validNote(), it)), "none" }
